@@ -315,6 +315,45 @@ theorem decodeHeader_eq (h : Str) : Gen.HttpWire.decodeHeader h = some (decodeHe
       obtain ⟨k, v⟩ := p
       by_cases hk : trim k = [] <;> simp [hk]
 
+/-! ### round 4: util.DecodeHTTPConfigHeaders -/
+
+/-- the loop of DecodeHTTPConfigHeaders over the regenerated round `Gen.HttpWire.configHeaderStep`: the first bad string ends it
+with its error; `none` = a round would panic -/
+def runConfigHeaders : Hdr → List Str → Option (Except HdrErr Hdr)
+  | st, [] => some (.ok st)
+  | st, h :: rest =>
+    match Gen.HttpWire.configHeaderStep st h with
+    | none => none
+    | some (.error e) => some (.error e)
+    | some (.ok st') => runConfigHeaders st' rest
+
+theorem runConfigHeaders_eq (strs : List Str) (acc : Hdr) :
+    runConfigHeaders acc strs =
+      some (match decodeAll strs with
+        | .error e => .error e
+        | .ok kvs => .ok (kvs.foldl (fun h kv => hadd h kv.1 kv.2) acc)) := by
+  induction strs generalizing acc with
+  | nil => rfl
+  | cons s rest ih =>
+    simp only [runConfigHeaders, Gen.HttpWire.configHeaderStep, decodeHeader_eq, Option.map_some, decodeAll]
+    cases hd : decodeHeader s with
+    | error e => rfl
+    | ok kv =>
+      obtain ⟨k, v⟩ := kv
+      simp only [ih]
+      cases decodeAll rest with
+      | error e => rfl
+      | ok kvs => rfl
+
+/-- **The `headers` option is decoded as the model says**: the regenerated loop of DecodeHTTPConfigHeaders, started with the
+regenerated (empty) map, never panics, stops at the first bad string with its error, and otherwise ADDS every decoded pair in
+order — the model's `decodeAll` followed by `confHdr`. -/
+theorem configHeaders_eq (strs : List Str) :
+    runConfigHeaders Gen.HttpWire.configHeadersInit strs =
+      some (match decodeAll strs with
+        | .error e => .error e
+        | .ok kvs => .ok (confHdr kvs)) := runConfigHeaders_eq strs []
+
 theorem http2NeedsSSL_eq (ssl : Bool) : constructible .http2 ssl = (!Gen.HttpWire.http2NeedsSSL || ssl) := by
   cases ssl <;> rfl
 
